@@ -193,7 +193,7 @@ BUILT = {
             'DESIGN.md 3/C15'),
     'C20': ('exploration',
             'exhaustive product of ISA vocabularies x editor targets; generated packages parsed and their category patterns applied to word lists',
-            'Every vocabulary of 1..2 (thorough 3) mnemonics, <=1 (2) macros, <=2 (3) registers and <=1 (2) predefined names from pools '
+            'Vocabularies with two categories varied at a time (thorough: plus every choice of 1..2 mnemonics, <=1 macro, <=2 registers, <=1 predefined name, judged on patterns only) from pools '
             'built to collide, with empty categories, is turned into an ISA definition and both real generators are run; every '
             'generated file must parse in its format (JSON / YAML / property list / XML / zip), contain no ##PLACEHOLDER##, and '
             'the category patterns extracted from the grammar must match every configured word in full and no near-miss identifier '
